@@ -5,7 +5,7 @@ Layout (absolute paths; on the local kind below a scratch directory R):
     /srv/pub/            <- the served directory
         ok               file
         sub/             a real 2a branch (so control-directory verbs have positive controls)
-        home/u/hf        the home of user "u" (``~u`` expands INTO the served directory)
+        home/hf, home/u/ the (empty) home of user "u" (``~u`` expands INTO the served directory)
         in/ (+marker)    only in the "jail" layout: a second branch
     /srv/secret          canary file                                  } variant A only;
     /srv/secretdir/      a real 2a branch + canary file ``marker``    } variant B has nothing
@@ -41,11 +41,12 @@ CANARIES = {
 }
 INSIDE_FILES = {
     "srv/pub/ok": b"public-ok",
-    "srv/pub/home/u/hf": b"home-file-of-u",
+    "srv/pub/home/hf": b"a-file-in-home",
 }
 SERVED = "/srv/pub"
 _ID_RE = re.compile(rb"(chroot|filtered|memory)[-+]\d+")
 _HEX_RE = re.compile(rb"0x[0-9a-fA-F]+")
+_TMP_RE = re.compile(rb"\.tmp[A-Za-z0-9_]{6}")       # random names of LocalTransport's atomic-put temp files
 VERIFY_RESTORE = bool(os.environ.get("C31_VERIFY_RESTORE"))
 
 
@@ -441,7 +442,7 @@ class World:
         for pre in self.prefixes:
             b = b.replace(pre, b"<R>")
         b = _ID_RE.sub(rb"\1-N", b)
-        return _HEX_RE.sub(b"0xN", b)
+        return _TMP_RE.sub(b".tmpN", _HEX_RE.sub(b"0xN", b))
 
     def request(self, root, verb, args, body=None):
         """Send one raw request; returns the canonicalised outcome tuple."""
@@ -466,8 +467,10 @@ class World:
         except (terrors.SmartProtocolError, terrors.ConnectionError, berrors.BzrError, ConnectionError) as e:
             # e.g. the server dies while serialising an error tuple that contains None: no bytes leak
             out = ("err", (b"client:" + type(e).__name__.encode(),), b"")
-        return (out[0], tuple(self.canon(x) if isinstance(x, bytes) else repr(x).encode() for x in out[1]),
-                self.canon(out[2]))
+        args = tuple(self.canon(x) if isinstance(x, bytes) else repr(x).encode() for x in out[1])
+        if out[0] == "ok" and args[:1] == (b"names",):
+            args = args[:1] + tuple(sorted(args[1:]))      # directory listings are sets
+        return (out[0], args, self.canon(out[2]))
 
 
 def _resolve(base, rel):
